@@ -40,6 +40,7 @@ type Scenario struct {
 	Path     string   `json:"path"`
 	ReqBody  string   `json:"req_body"`
 	Clients  int      `json:"clients,omitempty"` // concurrent identical clients (default 1)
+	Followup bool     `json:"followup,omitempty"` // after the request: every backend works again, one more request is sent
 }
 
 type ClientObs struct {
@@ -66,6 +67,8 @@ type Obs struct {
 	PerEP    map[string][3]int64 `json:"per_ep"` // collector per endpoint total, ok, failed
 	SameReq  bool              `json:"same_req"` // every backend saw the same method/path/query/body
 	StartErr string            `json:"start_err,omitempty"`
+	FollowOrder  []string      `json:"follow_order,omitempty"`  // backends contacted by the follow-up request
+	FollowStatus int           `json:"follow_status,omitempty"` // client status of the follow-up request
 }
 
 func hexOrSha(b []byte) string {
@@ -226,6 +229,22 @@ func Run(sc *Scenario) *Obs {
 	for i, e := range sc.EPs {
 		a, b := pe0[backends[i].URL()], pe1[backends[i].URL()]
 		obs.PerEP[e.Name] = [3]int64{b.TotalRequests - a.TotalRequests, b.SuccessfulRequests - a.SuccessfulRequests, b.FailedRequests - a.FailedRequests}
+	}
+	if sc.Followup {
+		for i, e := range sc.EPs {
+			backends[i].Listen()
+			backends[i].SetBehaviour(OkBeh(e.Name, 200, 20, false, "application/json"))
+		}
+		fr := stack.Do(s.Addr, raw, 5*time.Second)
+		obs.FollowStatus = fr.Status
+		var fall []*stack.Seen
+		for _, b := range backends {
+			fall = append(fall, b.Taken()...)
+		}
+		sort.Slice(fall, func(i, j int) bool { return fall[i].Seq < fall[j].Seq })
+		for _, x := range fall {
+			obs.FollowOrder = append(obs.FollowOrder, x.Backend)
+		}
 	}
 	return obs
 }
